@@ -1,0 +1,46 @@
+//go:build verif
+
+package starlark
+
+import "go.starlark.net/internal/compile"
+
+// Verification hooks, compiled only with -tags verif.
+// They give a deterministic simulator three seams:
+// a scheduling point before every VM instruction,
+// an independent "instruction is about to execute" probe,
+// and control of the per-process string hash function.
+
+const verifEnabled = true
+
+var (
+	// VerifYield, if non-nil, is called at the head of the interpreter
+	// loop, before the step counter is advanced and before the
+	// step-limit and cancellation tests.
+	VerifYield func(thread *Thread)
+
+	// VerifExec, if non-nil, is called after the step-limit and
+	// cancellation tests, just before the instruction is executed.
+	VerifExec func(thread *Thread, opcode uint8)
+
+	// VerifHashString, if non-nil, may replace the hash of a string.
+	VerifHashString func(s string) (uint32, bool)
+)
+
+func verifYield(thread *Thread) {
+	if VerifYield != nil {
+		VerifYield(thread)
+	}
+}
+
+func verifExec(thread *Thread, op compile.Opcode) {
+	if VerifExec != nil {
+		VerifExec(thread, uint8(op))
+	}
+}
+
+func verifHashString(s string) (uint32, bool) {
+	if VerifHashString != nil {
+		return VerifHashString(s)
+	}
+	return 0, false
+}
